@@ -7,8 +7,8 @@ KNOWN_CLASS = "open_notify_stream_frame_after_reset"
 
 def classify(p):
     """the one known class: the only frames the judgement rejects are empty, FIN-less STREAM frames at
-    offset 0 (the stream controller's open notification, retransmitted after loss) for a stream whose
-    RESET_STREAM was already sent; with those frames exempted the Python port of the monitor accepts"""
+    offset 0 for a stream whose RESET_STREAM was already sent AND for which such a frame had been sent
+    before (the stream controller's open notification, *re*transmitted after loss); with those frames exempted the Python port of the monitor accepts"""
     if p.get("component") != "sm":
         return None
     from run_check import parse_hexline
